@@ -90,6 +90,32 @@ func propC20(w *World, r *Report) {
 		r.Unknown("roles", "LogLimiter fields", "-", "could not resolve time/entry/interval/clock fields by type")
 		return
 	}
+	// the limiter's memory is written by the printing procedure and by nobody else: a second writer (a "restart", a
+	// "touch") moves the last-print time or text without a line having been printed, and a repeat that is due is swallowed
+	{
+		nW := 0
+		for _, fn := range w.RepoFuncs() {
+			for _, b := range fn.Blocks {
+				for _, in := range b.Instrs {
+					st2, ok := in.(*ssa.Store)
+					if !ok {
+						continue
+					}
+					fa, ok := st2.Addr.(*ssa.FieldAddr)
+					if !ok || !isPtrTo(fa.X.Type(), T) {
+						continue
+					}
+					leaf := "loglimiter.LogLimiter." + st.Field(fa.Field).Name() + "@recv:loglimiter.LogLimiter"
+					if leaf != fTime && leaf != fEntry {
+						continue
+					}
+					nW++
+					r.Check(fn == core, "G3", "the last-print memory ("+st.Field(fa.Field).Name()+") is written only by the printing procedure", w.InstrPos(st2), "written in "+fn.String())
+				}
+			}
+		}
+		r.Check(nW >= 2, "G4", "writes of the limiter's memory found", "-", fmt.Sprint(nW))
+	}
 	now := "dynamic(" + fClock + ")"
 	condA := "lt(time.Time.Sub(" + now + ", " + fTime + "), " + fInterval + ")"
 	eqArgs := []*Term{tleaf(msg), tleaf(fEntry)}
